@@ -368,6 +368,34 @@ func runStore(o *opts) error {
 	if o.n > 0 {
 		n = o.n
 	}
+	// corpus: hand-written / previously failing cases in the case-line format, executed first
+	if cp := o.get("corpus", ""); cp != "" {
+		data, err := os.ReadFile(cp)
+		if err != nil {
+			return err
+		}
+		for _, line := range strings.Split(string(data), "\n") {
+			line = strings.TrimSpace(line)
+			if line == "" || strings.HasPrefix(line, "#") {
+				continue
+			}
+			w, txs, err := parseCase(line)
+			if err != nil {
+				return fmt.Errorf("corpus %s: %v", cp, err)
+			}
+			c, obs, err := runHistory(w, txs, tmp)
+			if err != nil {
+				return err
+			}
+			cases.line("%s", c)
+			impl.line("%s", obs)
+			stats["corpus"]++
+		}
+	}
+	if o.n == 0 && o.get("corpus", "") != "" && o.get("profile", "") == "" {
+		writeJSON(o.out, "stats.json", stats)
+		return nil
+	}
 	r := newRng(o.seed)
 	only := o.getInt("only", -1)
 	for i := 0; i < n; i++ {
@@ -419,4 +447,84 @@ func runStore(o *opts) error {
 	writeJSON(o.out, "stats.json", stats)
 	fmt.Fprintf(os.Stderr, "store: %d histories\n", n)
 	return nil
+}
+
+// parseCase reads a case line (WIRING <name> SCH ... TX ...) back into a wiring and a history
+func parseCase(line string) (*wiring, []hTx, error) {
+	toks := strings.Fields(line)
+	if len(toks) < 3 || toks[0] != "WIRING" {
+		return nil, nil, fmt.Errorf("case must start with WIRING <name>")
+	}
+	w := wiringByName(toks[1])
+	if w == nil {
+		return nil, nil, fmt.Errorf("unknown wiring %q", toks[1])
+	}
+	w.derive()
+	pos := 0
+	for pos < len(toks) && toks[pos] != "TX" {
+		pos++
+	}
+	next := func() string { t := toks[pos]; pos++; return t }
+	nextInt := func() int { var n int; fmt.Sscanf(next(), "%d", &n); return n }
+	var txs []hTx
+	for pos < len(toks) {
+		if next() != "TX" {
+			return nil, nil, fmt.Errorf("expected TX at token %d", pos)
+		}
+		t := hTx{Sys: next() == "1", PreCommitErr: next() == "1"}
+		for nv := nextInt(); nv > 0; nv-- {
+			t.Vetoes = append(t.Vetoes, hVeto{Store: next(), Change: next(), Id: string(unhx(next()))})
+		}
+		for no := nextInt(); no > 0; no-- {
+			op := hOp{Kind: next()}
+			fvsv := func() {
+				op.F = map[string]*string{}
+				op.S = map[string][]string{}
+				for nf := nextInt(); nf > 0; nf-- {
+					f := next()
+					v := next()
+					if v != "N" {
+						op.F[f] = sp(string(unhx(v)))
+					}
+				}
+				for ns := nextInt(); ns > 0; ns-- {
+					f := next()
+					var l []string
+					for k := nextInt(); k > 0; k-- {
+						l = append(l, string(unhx(next())))
+					}
+					op.S[f] = l
+				}
+			}
+			switch op.Kind {
+			case "C":
+				op.Store, op.Id, op.Sys = next(), string(unhx(next())), next() == "1"
+				fvsv()
+			case "UP":
+				op.Store, op.Id = next(), string(unhx(next()))
+				fvsv()
+				if c := next(); c != "-" {
+					op.HasChk = true
+					var n int
+					fmt.Sscanf(c, "%d", &n)
+					for ; n > 0; n-- {
+						op.Checker = append(op.Checker, next())
+					}
+				}
+			case "D":
+				op.Store, op.Id = next(), string(unhx(next()))
+			case "AL", "RL":
+				op.Store, op.Id, op.LinkF = next(), string(unhx(next())), next()
+				for k := nextInt(); k > 0; k-- {
+					op.Targets = append(op.Targets, string(unhx(next())))
+				}
+			case "FAIL":
+			default:
+				return nil, nil, fmt.Errorf("bad op %q", op.Kind)
+			}
+			t.Ops = append(t.Ops, op)
+		}
+		txs = append(txs, t)
+	}
+	return w, txs, nil
 }
